@@ -147,6 +147,16 @@ func includeFun(t *template.Template, includedNames map[string]int) func(string,
 // defined by their enclosing contexts.
 func tplFun(parent *template.Template, includedNames map[string]int, strict bool) func(string, interface{}) (string, error) {
 	return func(tpl string, vals interface{}) (string, error) {
+		// A value that calls tpl on itself (directly or through other values)
+		// would otherwise recurse until the stack is exhausted; bound the
+		// nesting like include does. The key cannot be a template name.
+		const tplDepthKey = "\x00tpl"
+		if includedNames[tplDepthKey] > recursionMaxNums {
+			return "", errors.Wrapf(fmt.Errorf("unable to execute template"), "rendering template has a nested tpl call: %q", tpl)
+		}
+		includedNames[tplDepthKey]++
+		defer func() { includedNames[tplDepthKey]-- }()
+
 		t, err := parent.Clone()
 		if err != nil {
 			return "", errors.Wrapf(err, "cannot clone template")
